@@ -21,7 +21,10 @@ RULE = ("per class (LRUCache, SimpleCache, HybridCache, DiskCache) and max_size 
         "shared=True variants of the same trees at smaller depth (one in-process manager); ALL schedules of two clients "
         "issuing 1-2 put/get/in/len/clear operations each on one cache (step scheduler: every call on the cache's "
         "dict/list/lock is one step), each schedule replayed on the small-step model SharedSteps and the outcome "
-        "compared schedule by schedule (and judged against the linearizations of the abstract spec); DiskCache RE-OPENED "
+        "compared schedule by schedule (and judged against the linearizations of the abstract spec); RECENCY BEFORE FULL for "
+        "max_size 3..5 (a get of a non-newest resident key while slots are free, then overflow: scripts, the complete "
+        "tree after `put 0; put 1` over 4 keys to the depth containing put,put,get,put,put, shared variant, the "
+        "DiskCache front with max_size 1 / front 3, random fill-with-reads sequences); DiskCache RE-OPENED "
         "ON A FILLED DIRECTORY for max_size 2..3: >= max_size puts of distinct keys, Reopen (same / smaller / larger / "
         "no max_size; with_lru_cache on and off; lru_cache_size below, at and above max_size), then fixed scripts (puts "
         "of NEW keys, `in` for every key and len after each, gets of the oldest keys), the COMPLETE tree of the next "
@@ -580,6 +583,61 @@ def reopen_cases(rng, quick):
     return cases
 
 
+def recency_cases(rng, quick):
+    """A `get` of a non-newest resident key while the cache still has free slots must count as a use (needs
+    max_size >= 3): put a, put b, get a, put c, put d must evict b.  Fixed scripts, complete trees from a
+    `put 0; put 1` (or `put 0`) prefix over a 4-key alphabet, the DiskCache in-memory front, random sequences."""
+    cases = []
+
+    def probes(keys):
+        return [["M", k] for k in range(keys)] + [["L"]]
+
+    P = lambda k, v: ["P", k, v, 0.0]
+    for sh in (False, True):
+        for mx in (3, 4):
+            keys = mx + 2
+            fill = [P(k, k + 1) for k in range(mx - 1)]                       # one free slot left
+            for g in range(mx - 1):                                           # read each resident key in turn
+                ops = (fill + [["G", g]] + [P(mx - 1, 10)] + probes(keys) + [P(mx, 11)] + probes(keys)
+                       + [P(mx + 1, 12)] + probes(keys) + [["G", g], ["G", (g + 1) % (mx - 1)]])
+                cases.append({"kind": "seq", "cfg": _lru(mx, sh), "ops": ops})
+            # several reads before the cache is full
+            ops = [P(0, 1), P(1, 2), ["G", 0], P(2, 3), ["G", 1], ["G", 0]] + [P(k, 20 + k) for k in range(3, mx + 2)]
+            cases.append({"kind": "seq", "cfg": _lru(mx, sh), "ops": ops + probes(keys)})
+    # complete trees: everything that can follow `put 0` (depth 4) / `put 0; put 1` (depth 3), 4 keys, max_size 3
+    cases.append({"kind": "tree", "cfg": _lru(3), "keys": 4, "durs": [0.0], "reopens": [],
+                  "prefix": [P(0, 0), P(1, 1)], "depth": 3 if quick else 4})
+    if not quick:
+        cases.append({"kind": "tree", "cfg": _lru(4), "keys": 4, "durs": [0.0], "reopens": [],
+                      "prefix": [P(0, 0), P(1, 1), P(2, 2)], "depth": 3})
+    cases.append({"kind": "tree", "cfg": _lru(3, True), "keys": 4, "durs": [0.0], "reopens": [],
+                  "prefix": [P(0, 0), P(1, 1), ["G", 0]], "depth": 2 if quick else 3})
+    # DiskCache: the front is an LRUCache; its order shows once the file of the key is gone (max_size 1, front 3)
+    cases.append({"kind": "tree", "cfg": _disk(1, True, 3), "keys": 4, "durs": [0.0], "reopens": [],
+                  "prefix": [P(0, 0), P(1, 1), ["G", 0]], "depth": 2 if quick else 3})
+    cases.append({"kind": "seq", "cfg": _disk(1, True, 3),
+                  "ops": [P(0, 1), P(1, 2), ["G", 0], P(2, 3), P(3, 4)] + probes(4) + [["G", 0], ["G", 1]]})
+    # random: reads of resident keys interleaved with the puts that fill the cache, then overflow
+    for _ in range(15 if quick else 200):
+        mx = rng.choice([3, 3, 4, 5])
+        keys = mx + 2
+        sh = rng.random() < 0.1
+        order = rng.sample(range(keys), keys)
+        ops, resident = [], []
+        for i, k in enumerate(order):
+            ops.append(P(k, i + 1))
+            resident.append(k)
+            for _ in range(rng.randint(0, 2)):
+                ops.append(["G", rng.choice(resident[-mx:])])
+        ops += probes(keys)
+        for _ in range(rng.randint(0, 6)):
+            ops.append(P(rng.randrange(keys), rng.randrange(41)) if rng.random() < 0.5 else ["G", rng.randrange(keys)])
+        ops += probes(keys)
+        cfg = _lru(mx, sh) if rng.random() < 0.8 else _disk(rng.choice([1, 2]), True, mx, sh)
+        cases.append({"kind": "seq", "cfg": cfg, "ops": ops})
+    return cases
+
+
 def witnesses():
     P = lambda k, v, d=0.0: ["P", k, v, d]
     probe3 = [["M", 0], ["M", 1], ["M", 2], ["L"]]
@@ -652,6 +710,8 @@ def generate(rng, tier, mult):
         cases += tree_cases(cfg, keys, durs, reopens, dq if quick else dt)
     # --- DiskCache re-opened on a filled directory
     cases += reopen_cases(rng, quick)
+    # --- reads before the cache is full must refresh recency (max_size >= 3)
+    cases += recency_cases(rng, quick)
     # --- two concurrent clients (locked operations put/get), all schedules
     cases += conc_cases(rng, quick)
     # --- random longer sequences
